@@ -52,6 +52,7 @@ ConfState(ob) ==
   /\ ConfD("effects", live' = ob.live2 /\ deploy' = DeployOf(ob) /\ active' = ob.active /\ user' = UserOf(ob),
            <<live', ob.live2, deploy', DeployOf(ob), active', ob.active, user', UserOf(ob)>>)
   /\ ConfD("processed", Cardinality(processed') = Len(ob.processed), <<processed', ob.processed>>)
+  /\ ConfD("height", now' = ob.height, <<now', ob.height>>)
 
 KeepMon == UNCHANGED <<accM, accH>>
 \* outside the end-blocker nothing that counts as a success effect may change
@@ -65,7 +66,7 @@ Quiet(e, allowDeploy, allowUser) ==
 TrInit == IsEvent("Init") /\ LET e == Trace[l]  s == WRec(e.w) IN
   /\ msgs' = s.msgs /\ nextId' = s.nextId /\ txs' = s.txs /\ processed' = s.processed
   /\ live' = s.live /\ deploy' = s.deploy /\ active' = s.active /\ user' = s.user
-  /\ res' = "start" /\ routed' = <<>> /\ applied' = <<>>
+  /\ res' = "start" /\ routed' = <<>> /\ applied' = <<>> /\ now' = 0
   /\ o' = e.obs /\ accM' = {} /\ accH' = SeqSet(e.used)      \* transactions accepted while the world was prepared
   /\ Report("Setup.Shares", e.shares = ShareFn)
   /\ ConfState(e.obs)
@@ -93,11 +94,19 @@ TrEvidence == IsEvent("Evidence") /\ LET e == Trace[l]  a == e.args IN
   /\ Conf("Evidence.res", e.res = res')
   /\ ConfState(e.obs)
 
+\* time passes: nothing may change, in particular nothing that was processed is forgotten
+TrAdvance == IsEvent("Advance") /\ LET e == Trace[l] IN
+  /\ Advance(e.args.d) /\ o' = e.obs /\ KeepMon
+  /\ Quiet(e, FALSE, FALSE)
+  /\ Conf("Advance.queue", Q(e.obs) = Q(o) /\ e.obs.processed = o.processed)
+  /\ ConfState(e.obs)
+
 \* ---- the end-blocker --------------------------------------------------------------------------
 TrEndBlock == IsEvent("EndBlock") /\ LET e == Trace[l]
      n == e.obs
      rIds == {e.routed[i].id : i \in DOMAIN e.routed}
-     failing == IF e.errc # "" /\ Len(e.routed) > 0 THEN {e.routed[Len(e.routed)].id} ELSE {}
+     \* the message the code's attestation pass stopped at with an error (reported by the code, per message)
+     failing == IF e.fail # 0 THEN {e.fail} ELSE {}
      \* messages the code reports as accepted on the strength of a transaction
      acc == {q \in Q(o) : q.id \in rIds \ failing /\ TxWinner(q)}
      goodK(k) == {q \in Q(o) : q.kind = k /\ Good(q)}
@@ -136,11 +145,12 @@ TrEndBlock == IsEvent("EndBlock") /\ LET e == Trace[l]
                                /\ \A q \in acc : WinHid(q) \subseteq SeqSet(n.processed))
   \* conformance with the shadow model
   /\ ConfD("EndBlock.res", e.res = res' /\ e.res = (IF e.errc = "" THEN "eb" ELSE e.errc), <<e.res, e.errc, res'>>)
+  /\ ConfD("EndBlock.failed", e.fail = EndBlockFailed /\ (e.fail # 0) = (e.errc # ""), <<e.fail, EndBlockFailed, e.errc>>)
   /\ ConfD("EndBlock.routed", [i \in DOMAIN e.routed |-> e.routed[i].id] = routed', <<e.routed, routed'>>)
   /\ ConfD("EndBlock.accepted", {q.id : q \in acc} = {applied'[i].m : i \in (Len(applied) + 1)..Len(applied')}, <<acc, applied'>>)
   /\ ConfState(n)
 
 TraceInit == InitW(0) /\ l = 1 /\ o = [queue |-> <<>>] /\ accM = {} /\ accH = {}
-TraceNext == TrInit \/ TrStart \/ TrEnqueue \/ TrSign \/ TrEvidence \/ TrEndBlock
+TraceNext == TrInit \/ TrStart \/ TrEnqueue \/ TrSign \/ TrEvidence \/ TrAdvance \/ TrEndBlock
 TraceAccepted == TLCGet("stats").diameter - 1 = Len(Trace)
 =============================================================================
